@@ -383,8 +383,8 @@ def event_validate(sc, traces):
 API_CFG = """SPECIFICATION SimSpec
 CONSTANTS MaxSteps = 20
 CHECK_DEADLOCK FALSE
-INVARIANTS CondListsAreOrderedSets EdgesBetweenNodes WildcardSeed
-PROPERTIES UpsertKeepsEdgesDistinct
+INVARIANTS CondListsNeverEmpty EdgesBetweenNodes WildcardSeed
+PROPERTIES UpsertKeepsEdgesDistinct UpsertAddsNoDuplicate
 """
 
 
